@@ -501,6 +501,61 @@ def asyncFor (A : AIter) : Nat → A.τ → List Val × IterEnd
     | (_, .raise e) => ([], .error e none)
     | (_, .yield _) => ([], .error excSyncError none)   -- a suspension: outside aiterSync_eq
 
+
+/-! ## Logging the calls that reach the innermost object -/
+
+/-- `I` with every call made on it recorded; the view is the record.  Instantiating a theorem
+    about all `Obj` with `logged I` gives "the same values and exceptions arrive inside". -/
+def logged {ι : Type} (I : Obj ι) : Obj (List Drive) where
+  σ := I.σ × List Drive
+  init := (I.init, [])
+  send st v := (((I.send st.1 v).1, st.2 ++ [.send v]), (I.send st.1 v).2)
+  throw st e := (((I.throw st.1 e).1, st.2 ++ [.throw e]), (I.throw st.1 e).2)
+  close st := (((I.close st.1).1, st.2 ++ [.close]), (I.close st.1).2)
+  view st := st.2
+
+/-! ## The asyncio Future handshake flag (`_asyncio_future_blocking`)
+
+MODELLED, NOT VERIFIED: `Future.__await__` sets the flag of a pending future immediately before
+yielding it; a Task clears it when it receives the future; a future whose flag is still set cannot
+be awaited by anybody else ("await wasn't used with future").  The relay loops never touch the
+flag.  CoroStart *holds* a yielded future between `_start` and the first `yield` of `__await__`;
+as repaired (fix proposed under C01: `_start` clears the flag on capture, `__await__` sets it
+again before passing the future on) its effects on the flag are the functions below. -/
+
+abbrev Flags := Nat → Bool
+
+def Flags.set (f : Flags) (k : Nat) (b : Bool) : Flags := fun i => if i = k then b else f i
+
+/-- effect of the awaited coroutine's own step: `Future.__await__` sets the flag, then yields -/
+def yieldFlag (o : Out) (f : Flags) : Flags :=
+  match o with
+  | .yield (.fut k) => f.set k true
+  | _ => f
+
+/-- `CoroStart._start` (repaired): a captured future's flag is cleared, as a Task would -/
+def startFlag (o : Out) (f : Flags) : Flags :=
+  match o with
+  | .yield (.fut k) => f.set k false
+  | _ => f
+
+/-- `CoroStart.__await__` (repaired): the held future is passed on with its flag set, whatever
+    happened to the flag meanwhile -/
+def reyieldFlag (sr : Option SR) (f : Flags) : Flags :=
+  match sr with
+  | some (.pending (.fut k)) => f.set k true
+  | _ => f
+
+/-- the flags after `await_sync(I)` -/
+def awaitSyncFlags {ι : Type} (I : Obj ι) (f : Flags) : Flags :=
+  let r := I.send I.init 0
+  let f1 := startFlag r.2 (yieldFlag r.2 f)
+  match r.2 with
+  | .yield _ =>
+    let t := I.throw r.1 .syncAbort
+    yieldFlag t.2 f1       -- (a future awaited while *closing* lies outside C05's domain)
+  | _ => f1
+
 /-! ## `Body → Body` forms for coroutine bodies -/
 
 /-- the coroutine object of body `b`, viewing its whole state -/
